@@ -2,7 +2,8 @@
 """Self-test of the checker: apply each deliberately broken body (selftest/mutants/*.patch) to a
 scratch copy of /repo/lib under /tmp, run the property's check against it (PYVC_REPO), and require
 exit 1 with the expected obligation refuted; apply each harmless edit (selftest/harmless/*.patch)
-and require exit 0.  Patches carry '# property: Cnn' and '# expect: <obligation substring>'
+and require that no violation is reported (exit 0; exit 2 / 3 = contract no longer applies is listed as
+'undec', exit 1 is a false alarm and fails).  Patches carry '# property: Cnn' and '# expect: <obligation substring>'
 header lines.  Usage: run_mutants.py [name-substring ...]"""
 import glob
 import os
@@ -38,8 +39,13 @@ def run_one(patch, expect_fail):
           ok = False
         msgs.append("%s exit=%d refuted=%s" % (prop, r.returncode, [l.split(': ', 1)[1] for l in out.splitlines() if l.startswith('refuted obligation')]))
       else:
-        if r.returncode != 0:
+        # a harmless edit must never be reported as a violation (exit 1 = false alarm = FAIL); a
+        # sidecar contract that no longer applies (exit 2 / 3: undecided, bounded parts still ran
+        # and passed) is a loss of decision, reported as 'undec' and counted separately
+        if r.returncode == 1 or any(l.startswith('VIOLATION') for l in out.splitlines()):
           ok = False
+        elif r.returncode != 0 and ok:
+          ok = None
         msgs.append("%s exit=%d %s" % (prop, r.returncode, [l for l in out.splitlines() if l.startswith(('refuted', 'CHECKER', 'UNDECIDED'))][:4]))
     return ok, '; '.join(msgs)
   finally:
@@ -72,6 +78,7 @@ def run_seed(d):
 def main():
   sel = sys.argv[1:]
   bad = 0
+  undec = 0
   for d in sorted(glob.glob(os.path.join(VERIF, 'seeded', '*'))):
     if sel and not any(s in d for s in sel):
       continue
@@ -84,9 +91,12 @@ def main():
       if sel and not any(s in patch for s in sel):
         continue
       ok, msg = run_one(patch, expect_fail)
-      print("%s %-9s %-45s %s" % ('ok  ' if ok else 'FAIL', kind, os.path.basename(patch), msg))
-      if not ok:
+      print("%s %-9s %-45s %s" % ('ok  ' if ok else ('undec' if ok is None else 'FAIL'), kind, os.path.basename(patch), msg))
+      if ok is None:
+        undec += 1
+      elif not ok:
         bad += 1
+  print("summary: %d failed, %d harmless edits left undecided (exit 2/3, no alarm)" % (bad, undec))
   return 1 if bad else 0
 
 
